@@ -362,6 +362,9 @@ func RunSeq(seed int64, p SeqProfile) (out []Ev) {
 				case r < p.PInsert:
 					fail := g.rnd.Float64() < p.PFailIns
 					x.Insert(g.writes(g.P.Cols, g.rnd.Intn(4), 0, false), fail)
+					if fail && g.rnd.Float64() < 0.7 {
+						rollback = true // the usual pattern: the callback's error is returned
+					}
 				case r < p.PInsert+p.PDelete:
 					if o, ok := g.pick(); ok {
 						x.Delete(o)
